@@ -251,6 +251,36 @@ class PwlInitCase(Case):
     return cl
 
 
+_PWL_BUILD_SCRIPT = """
+import numpy as np
+kw = args[0]
+ly = mod('pwl_calibration_layer')
+layer = ly.PWLCalibration(**kw)
+layer.build([None, kw['units']])
+failing = []
+lo, hi = kw.get('output_min'), kw.get('output_max')
+for v in layer.weights:
+  a = np.asarray(v.numpy(), dtype=float)
+  nm = v.name.split(':')[0].split('/')[-1]
+  if 'missing_output' in nm:
+    if lo is not None and (a < lo - 1e-6).any():
+      failing.append('%s = %s below output_min %s' % (nm, a.ravel().tolist(), lo))
+    if hi is not None and (a > hi + 1e-6).any():
+      failing.append('%s = %s above output_max %s' % (nm, a.ravel().tolist(), hi))
+  cons = getattr(v, 'constraint', None)
+  if cons is not None:
+    b = np.asarray(cons(tf.constant(v.numpy())).numpy(), dtype=float)
+    if np.abs(a - b).max() > 1e-5:
+      failing.append('%s moved by its own constraint: %s -> %s' % (nm, a.ravel().tolist()[:6], b.ravel().tolist()[:6]))
+try:
+  with tf.control_dependencies(layer.assert_constraints(eps=1e-4)):
+    tf.identity(layer.kernel)
+except Exception as e:
+  failing.append('assert_constraints of the fresh layer: %s' % (str(e).splitlines()[0][:120],))
+result = failing
+"""
+
+
 class PwlLayerInitCase(Case):
   """PWLCalibration built with its own initializer: weights satisfy the layer's constraints and the
   weight constraint leaves them unchanged (monotonicity + bounds configurations)."""
@@ -260,12 +290,29 @@ class PwlLayerInitCase(Case):
   def loop_mode(self, cfg):
     return ('unroll',)
 
-  def body(self, cfg, c):
-    ly = load.mod('pwl_calibration_layer')
+  @staticmethod
+  def _kw(cfg):
     kw = dict(input_keypoints=cfg['keypoints'], units=cfg['units'], monotonicity=cfg['mono'],
               output_min=cfg.get('output_min'), output_max=cfg.get('output_max'),
               kernel_initializer=cfg['init'], num_projection_iterations=cfg.get('iters', 2),
               clamp_min=cfg.get('clamp_min', False), clamp_max=cfg.get('clamp_max', False))
+    if cfg.get('impute'):
+      kw['impute_missing'] = True
+      if cfg['impute'] == 'value':
+        kw['missing_input_value'] = -7.0
+    return kw
+
+  def replay_desc(self, cfg, model, g):
+    return {'kind': 'script', 'code': _PWL_BUILD_SCRIPT, 'floatx': 'float32', 'args': [self._kw(cfg)], 'kwargs': {}}
+
+  def replay_eval(self, cfg, model, g, desc, nat):
+    failing = ['building the layer raised ' + nat['error'][:200]] if 'error' in nat else list(nat.get('ok') or [])
+    return {'desc': {'kind': 'the real Keras layer built with these arguments', 'kwargs': desc['args'][0]},
+            'native': {k: v for k, v in nat.items() if k != 'trace'}, 'failing': failing}
+
+  def body(self, cfg, c):
+    ly = load.mod('pwl_calibration_layer')
+    kw = self._kw(cfg)
     layer = ly.PWLCalibration(**kw)
     layer.build(tfc.TensorShape([None, cfg['units']]))
     w = tfc.Tensor(layer.kernel.a, tfc.float32)
@@ -280,6 +327,24 @@ class PwlLayerInitCase(Case):
     for idx in np.ndindex(*w.a.shape):
       cl.append(('constraint-leaves-initial-kernel-unchanged%s' % (list(idx),),
                  P.lift(out.a[idx]).eq(P.lift(w.a[idx]))))
+    # every OTHER weight the layer created (e.g. the learned missing output): within the output bounds when it is an
+    # output value, and left unchanged by its own constraint
+    for v in layer.weights:
+      if v is layer.kernel:
+        continue
+      nm = str(getattr(v, 'name', 'weight')).split(':')[0].split('/')[-1]
+      t = tfc.Tensor(v.a, tfc.float32)
+      if 'missing_output' in nm:
+        cl += SP.in_bounds(t, cfg.get('output_min'), cfg.get('output_max'), tag='layer-bounds[%s]' % nm)
+      cons = getattr(v, 'constraint', None)
+      if cons is not None:
+        o2 = cons(t)
+        for idx in np.ndindex(*t.a.shape):
+          cl.append(('constraint-leaves-initial-weight-unchanged[%s]%s' % (nm, list(idx)),
+                     P.lift(o2.a[idx]).eq(P.lift(t.a[idx]))))
+    if cfg.get('impute'):
+      cl.append(('missing-output-weight-created', B.const(any('missing_output' in str(getattr(v, 'name', ''))
+                                                              for v in layer.weights))))
     return cl
 
 
@@ -402,6 +467,10 @@ def configs(tier, rng):
       if mono:
         jobs.append(('pwl_layer', dict(keypoints=kps, units=1, mono=mono, output_min=0.0, output_max=1.0,
                                        init='equal_heights', clamp_min=True, clamp_max=True)))
+      # learned missing output (a second weight with its own bound constraint), incl. one-sided bounds on either side of 0
+      for (lo, hi) in ((None, None), (0.0, 1.0), (-2.0, 3.0), (None, 2.0), (0.5, None), (None, -1.5), (-0.5, None), (2.0, 5.0)):
+        jobs.append(('pwl_layer', dict(keypoints=kps, units=1 + len(kps) % 2, mono=mono, output_min=lo, output_max=hi,
+                                       init='equal_heights', impute='flags' if mono == 1 else 'value')))
   for (L, U, D, T) in ((2, 1, 1, 1), (2, 1, 2, 2), (3, 2, 2, 1), (3, 1, 2, 2), (2, 2, 1, 3)):
     for monos in (None, [1] * D, [1] + [0] * (D - 1)):
       for (lo, hi) in ((None, None), (0.0, 1.0), (-1.0, 2.0), (None, 2.0), (0.5, None)):
